@@ -12,6 +12,17 @@ THEOREMS = ["setup_clean_inverse", "setup_all_exact", "setup_all_idem", "ports_d
 REFUTED = []
 DEPS = ["Strs", "Netfilter", "PortMap", "NetfilterP", "PortMapP", "CorrBase", "C14c", "C14"]
 
+MANIFEST = {
+    "text": "Coq theorems over an executable model of portmapping/iptables.go + portmapping.go on a strict netfilter model "
+            "(setup_clean_inverse, setup_all_exact, setup_all_idem for ALL prior NAT tables and port sets with distinct fresh chain "
+            "names; ports_distinct_held, ports_held_until_close, failed_open_leaves_nothing for ALL open/close histories); the "
+            "model is tied to the working tree by running ~460 (quick) cases on the real PortMappingHandler over a strict "
+            "iptables fake and with real sockets in a private network namespace, comparing the dumped table and a bind probe "
+            "of every port after every step, and the theorems' predicates are evaluated on the implementation's own output",
+    "note": "trusted: Coq kernel (no axioms), strict iptables fake (hand-checked against iptables v1.8.9), Go harness + python "
+            "printers; chain-name hash not modelled (theorems assume distinct KUBE-HP- names, names are read from the "
+            "implementation); server.go's call sequences are replayed as op templates, not through the CNI server",
+}
 KNOWN_FINDINGS = []
 
 NAT_BUILTIN = ["PREROUTING", "INPUT", "OUTPUT", "POSTROUTING"]
